@@ -29,6 +29,10 @@ pub struct QueueCase {
     pub unblocks: Vec<u8>,
     /// C17 counting mode: receivers only use recv() and leave on the first error
     pub counting: bool,
+    /// a receiver that got an element does not return to the queue before everything has been
+    /// received (a long-running handler); requires elements <= receivers
+    #[serde(default)]
+    pub hold: bool,
     pub tape: Vec<u8>,
 }
 
@@ -73,6 +77,8 @@ pub fn run_queue_case(prop: &'static str, case: &QueueCase) -> Verdict {
         for (ri, ops) in c.receivers.iter().cloned().enumerate() {
             let (q, sh, done, lg, us) = (q.clone(), sh.clone(), done.clone(), lg.clone(), unblocks_started.clone());
             let counting = c.counting;
+            let hold = c.hold;
+            let total_elems = total;
             handles.push(rt::thread::spawn(move || {
                 let mut k = 0usize;
                 let mut empty_run = 0usize;
@@ -117,6 +123,12 @@ pub fn run_queue_case(prop: &'static str, case: &QueueCase) -> Verdict {
                         let mut st = sh.st.lock().unwrap();
                         st.received += 1;
                         sh.cv.notify_all();
+                        if hold {
+                            // busy with this request until all the others were taken by someone else
+                            while st.received < total_elems {
+                                st = sh.cv.wait(st).unwrap();
+                            }
+                        }
                     } else if counting {
                         break;
                     } else {
@@ -287,12 +299,13 @@ pub fn run_queue_case(prop: &'static str, case: &QueueCase) -> Verdict {
     let parked = l.parked_waits > 0;
     let multi = case.pushers.len() + case.receivers.len() >= 3;
     let nontrivial = if prop == "C07" { multi && parked } else { !case.unblocks.is_empty() && parked };
-    let mut g = if nontrivial { Good { nontrivial: Some(res.stats.trace_hash), classes: vec![] } } else { Good::trivial() };
+    let mut g = if nontrivial { Good { nontrivial: Some(res.stats.trace_hash), classes: vec![], extra_evals: 0 } } else { Good::trivial() };
     g = g
         .class(format!("pushers={}", case.pushers.len()))
         .class(format!("receivers={}", case.receivers.len()))
         .class_if(parked, "receiver-parked")
         .class_if(case.counting, "counting-mode")
+        .class_if(case.hold, "receivers-hold-their-request")
         .class_if(!l.timed_nones.is_empty(), "timed-receive-empty")
         .class_if(res.stats.preemptions > 0, "preempted")
         .class_if(res.stats.clock_picks > 0, "timeout-fired")
@@ -315,7 +328,30 @@ pub fn c07_queue_strategy() -> BoxedStrategy<QueueCase> {
         proptest::collection::vec(prop_oneof![2 => Just(vec![RecvOp::Recv]), 2 => proptest::collection::vec(recv_op(), 1..4)], 1..=3),
         tape_strategy(200),
     )
-        .prop_map(|(pushers, receivers, tape)| QueueCase { pushers, receivers, unblocks: vec![], counting: false, tape })
+        .prop_flat_map(|(pushers, receivers, tape)| {
+            let total: usize = pushers.iter().map(|p| p.len()).sum();
+            let all_recv = receivers.iter().all(|r| r.len() == 1 && r[0] == RecvOp::Recv);
+            let can_hold = all_recv && total <= receivers.len();
+            (Just((pushers, receivers, tape)), if can_hold { proptest::bool::weighted(0.7).boxed() } else { Just(false).boxed() })
+        })
+        .prop_map(|((pushers, receivers, tape), hold)| QueueCase { pushers, receivers, unblocks: vec![], counting: false, hold, tape })
+        .boxed()
+}
+
+/// receivers that each take one request and stay busy: the shape in which a lost wake-up shows
+pub fn c07_hold_strategy() -> BoxedStrategy<QueueCase> {
+    (2usize..=4, proptest::collection::vec(proptest::collection::vec(0u8..2, 1..=3), 1..=2), tape_strategy(120))
+        .prop_map(|(c, mut pushers, tape)| {
+            // at most one element per receiver
+            let mut total = 0;
+            for p in pushers.iter_mut() {
+                let room = c - total;
+                p.truncate(room);
+                total += p.len();
+            }
+            pushers.retain(|p| !p.is_empty());
+            QueueCase { pushers, receivers: vec![vec![RecvOp::Recv]; c], unblocks: vec![], counting: false, hold: true, tape }
+        })
         .boxed()
 }
 
@@ -324,14 +360,14 @@ pub fn c17_queue_strategy() -> BoxedStrategy<QueueCase> {
         // (a) counting: recv() only, u generated unblocks, topped up to one per receiver
         3 => (proptest::collection::vec(proptest::collection::vec(0u8..3, 0..=3), 1..=2), 1usize..=4, proptest::collection::vec(0u8..6, 0..=4), tape_strategy(200)).prop_map(|(pushers, c, mut unblocks, tape)| {
             unblocks.truncate(c);
-            QueueCase { pushers, receivers: vec![vec![RecvOp::Recv]; c], unblocks, counting: true, tape }
+            QueueCase { pushers, receivers: vec![vec![RecvOp::Recv]; c], unblocks, counting: true, hold: false, tape }
         }),
         // (b) mixed operations with unblocks in flight
         2 => (proptest::collection::vec(proptest::collection::vec(0u8..3, 0..=3), 1..=2), proptest::collection::vec(proptest::collection::vec(recv_op(), 1..4), 1..=3), proptest::collection::vec(0u8..6, 1..=3), tape_strategy(200))
-            .prop_map(|(pushers, receivers, unblocks, tape)| QueueCase { pushers, receivers, unblocks, counting: false, tape }),
+            .prop_map(|(pushers, receivers, unblocks, tape)| QueueCase { pushers, receivers, unblocks, counting: false, hold: false, tape }),
         // (c) timed receivers only (bounds under virtual time)
         2 => (proptest::collection::vec(proptest::collection::vec(0u8..4, 0..=3), 1..=2), proptest::collection::vec(proptest::collection::vec(prop_oneof![3 => proptest::sample::select(vec![0u64, 1, 5, 20, 100]).prop_map(RecvOp::RecvTimeout), 1 => Just(RecvOp::TryRecv)], 1..3), 1..=3), tape_strategy(200))
-            .prop_map(|(pushers, receivers, tape)| QueueCase { pushers, receivers, unblocks: vec![], counting: false, tape }),
+            .prop_map(|(pushers, receivers, tape)| QueueCase { pushers, receivers, unblocks: vec![], counting: false, hold: false, tape }),
     ]
     .boxed()
 }
